@@ -83,14 +83,17 @@ class SliceAccessor(Accessor):
     def __getitem__(self, subscript):
         if isinstance(subscript, slice):
             # Acquiris Quodcumquae Rapis
+            # Same semantics as segyio's line slicing: the slice runs over line *numbers* (defaults taken from the
+            # smallest/largest number, whatever the order of the axis) and numbers not in the file are skipped
+            keys = [int(k) for k in self.keys_object]
             start, stop, step = subscript.start, subscript.stop, subscript.step
-            if step is None:
-                step = int(self.keys_object[1] - self.keys_object[0])
+            increasing = step is None or step > 0
             if start is None:
-                start = int(self.keys_object[0])
+                start = min(keys) if increasing else max(keys)
             if stop is None:
-                stop = int(self.keys_object[-1] + 1)
-            return [self.values_function(index) for index in range(start, stop, step)]
+                stop = max(keys) + 1 if increasing else min(keys) - 1
+            line_numbers = range(*slice(start, stop, step).indices(max(keys) + 1))
+            return [self.values_function(number) for number in line_numbers if number in keys]
         else:
             return self.values_function(subscript)
 
